@@ -857,8 +857,11 @@ class WCS(GWCSAPIMixin):
         l2, phi2 = np.deg2rad(self.__call__(*(crpix + [-0.5, 0.5])))
         l3, phi3 = np.deg2rad(self.__call__(*(crpix + 0.5)))
         l4, phi4 = np.deg2rad(self.__call__(*(crpix + [0.5, -0.5])))
-        area = np.abs(0.5 * ((l4 - l2) * (np.sin(phi1) - np.sin(phi3)) +
-                             (l1 - l3) * (np.sin(phi2) - np.sin(phi4))))
+        # longitude differences across the 0/360 wrap are taken the short way
+        dl42 = np.mod(l4 - l2 + np.pi, 2.0 * np.pi) - np.pi
+        dl13 = np.mod(l1 - l3 + np.pi, 2.0 * np.pi) - np.pi
+        area = np.abs(0.5 * (dl42 * (np.sin(phi1) - np.sin(phi3)) +
+                             dl13 * (np.sin(phi2) - np.sin(phi4))))
         inv_pscale = 1 / np.rad2deg(np.sqrt(area))
 
         # form equation:
